@@ -65,6 +65,13 @@ def forms():
     F["import_as"] = lambda k: ([I.import_("math", "m")], [])
     F["import_dotted"] = lambda k: ([I.import_("os.path")], [])
     F["from_import"] = lambda k: ([I.from_import("math", "pi", "q")], ["q"])
+    # a nested function that binds a local with the same name as a variable of the enclosing function, and is called
+    def nested_same(k):
+        ki = k()
+        return ([I.assign(I.name("a"), I.site(k())), I.def_("inner", [I.assign(I.name("a"), I.site(ki)), I.ret(I.read("a"))]),
+                 I.assign(I.name("b"), I.callinner("inner", ki)), I.seen("a")], ["a", "b"])
+    F["nested_def_same_name"] = nested_same
+    F["global_none_read"] = lambda k: ([I.assign(I.name("a"), I.read("GN")), I.assign(I.name("b"), I.site(k())), I.seen("a")], ["a", "b"])
     F["nested_def"] = lambda k: ([I.def_("inner", [I.ret(I.site(k()))]), I.assign(I.name("a"), I.site(k()))], ["a"])
     F["nested_class"] = lambda k: ([I.class_("Kls", [I.pass_()]), I.assign(I.name("a"), I.site(k()))], ["a"])
     F["lambda"] = lambda k: ([I.assign(I.name("a"), I.lam(I.site(k())))], ["a"])
@@ -159,7 +166,7 @@ def family_f1(quick=True):
     # annotation that cannot be evaluated (Python never evaluates the annotations of locals)
     k = K()
     pid += 1
-    progs.append(dict(I.program(f"p{pid}", ["x"], [I.assign(I.name("o"), I.obj(k())), I.assign(I.attr("o", "__priv"), I.site(k())),
+    progs.append(dict(I.program(f"p{pid}", ["x"], [I.assign(I.name("o"), I.obj(k())), I.assign(I.attr("o", "__priv"), I.site(k())), I.assign(I.attr("o", "__tail_"), I.site(k())),
                                                   I.assign(I.attr("o", "__dunder__"), I.site(k())), I.ret(I.site(k()))], pid=pid),
                       klass=True, form="private_attr_in_class", ctx="top", family="F1"))
     k = K()
